@@ -2,8 +2,8 @@ package main
 
 import (
 	"go/token"
-	"regexp"
 	"go/types"
+	"regexp"
 	"strings"
 
 	"golang.org/x/tools/go/ssa"
@@ -33,7 +33,7 @@ func c14Table() []GuardReq {
 	add(req("uc-timelock", VERIFY, "call via closure %ID%$%ID%(call types.PolicyAbove("+P+".(types.PolicyTypeUnlockConditions).Timelock))", opNE, "nil", "legacy unlock conditions enforce their timelock as a height lock"))
 	r := req("uc-entropy-key", VERIFY, P+".(types.PolicyTypeUnlockConditions).PublicKeys[*].Algorithm", opEQ, "global types.SpecifierEntropy", "entropy keys can never sign")
 	r.While = []string{"(?:" + pat("phi(…"+P+".(types.PolicyTypeUnlockConditions).SignaturesRequired…) != const:0") + "|" + pat("phi(…"+P+".(types.PolicyTypeUnlockConditions).SignaturesRequired…) > const:0") + ")"} // a key the walk no longer needs is not looked at: an entropy key after the satisfying ones does not make the policy unspendable
-	r.LoopExitOK = true // the key walk stops once enough signatures were counted or too few keys/signatures remain
+	r.LoopExitOK = true                                                                                                                                                                                                // the key walk stops once enough signatures were counted or too few keys/signatures remain
 	add(r)
 	add(req("uc-required-count", VERIFY, "phi(…"+P+".(types.PolicyTypeUnlockConditions).SignaturesRequired…)", opNE, "const:0", "the required count of distinct listed keys must be reached"))
 	add(req("no-leftover-signatures", VERIFY, "len({[]types.Signature})", opGT, "const:0", "no signature may be left unused"))
